@@ -7,7 +7,9 @@ for p in $(ls -d $root/C*/patch.diff $root/C*/out/*/patch.diff 2>/dev/null | sor
   d=$(dirname $p)
   if ! git -C /repo apply --check $p 2>/dev/null; then echo "$d: PATCH-DOES-NOT-APPLY"; continue; fi
   git -C /repo apply $p
-  res=$(cd /verif && ./bin/sftpcheck -property all -out /tmp/seedmatrix-ev 2>/dev/null | grep -E "^C[0-9]+ quick" | grep -v " 0 violations" | sed -E 's/^(C[0-9]+) quick.* ([0-9]+) violations.*/\1(\2)/' | paste -sd' ')
+  raw=$(cd /verif && ./bin/sftpcheck -property all -out /tmp/seedmatrix-ev 2>/dev/null)
+  if [ $(echo "$raw" | grep -cE "^C[0-9]+ quick") -lt 19 ]; then git -C /repo checkout -- . ; git -C /repo clean -fdq; echo "$d: CHECKER-FAILED"; continue; fi
+  res=$(echo "$raw" | grep -E "^C[0-9]+ quick" | grep -v " 0 violations" | sed -E 's/^(C[0-9]+) quick.* ([0-9]+) violations.*/\1(\2)/' | paste -sd' ')
   git -C /repo checkout -- . ; git -C /repo clean -fdq
   echo "$d: ${res:-NOT-DETECTED}"
 done
